@@ -1,12 +1,15 @@
 import Driver.ReadCheck
 import SaModel.Read.Cast
+import SaModel.Read.PresentCodec
 /- suite `read` (C02; also C05, C18, C16): valid views from three sources, read item-wise and in bulk.
 
 agree    : the reader model reproduces constructor and read outcomes (class + value).
 oracles  : `Spec.decodeAt` of the dumped view = the generator's logical rows = what arrow-rs accessors say
            (three-way; a mismatch means spec, generator or marrow conversion is wrong — reported, never ignored).
-spec C02 : `deserialize_any` results equal `toD` of the decoded slot; typed results equal `cast` of it.
-spec C05 : where `cast` says the value has no exact representation in the target, the read must fail.
+spec C02 : the result of every read equals what the INDEPENDENT reader-side table `Spec.typedRead Read.readCodec` (`Spec/Present.lean`,
+           written from the documentation; `.any` = `Spec.presentAny`) demands of the decoded slot.  `Read.cast` (proved equal to
+           it in every cell: `Props.C02.cast_eq_typedRead`) only supplies the REASON of a must-fail cell for the signature.
+spec C05 : where the table says the value has no exact representation in the target, the read must fail.
 spec C18 : errors name a field path and a data type.  spec C16: no panic. -/
 namespace Driver.Suites.Read
 open Lean Driver SaModel SaModel.Read
@@ -54,10 +57,20 @@ structure Acc where
 def Acc.note (a : Acc) (sig why : String) : Acc :=
   if a.sig == "" then { a with sig := sig, why := why } else a
 
-/-- what the specification says about one item read -/
+/-- what the specification says about one item read: decided by the independent table `Spec.typedRead`; the reason of a
+must-fail cell (used for the signature only) is the one `Read.cast` names -/
 def specItem (rec_ : Arr) (ty : Target) (idx : Nat) : Claim :=
   match Spec.decodeAt rec_ idx with
-  | .ok lv => if utf8Ok lv then cast ty rec_ lv else na
+  | .ok lv =>
+    if utf8Ok lv then
+      match Spec.typedRead readCodec ty rec_ lv with
+      | .value d => must d
+      | .unclaimed => na
+      | .fails =>
+        (match cast ty rec_ lv with
+         | .error e => .error e
+         | _ => mustFail "other")
+    else na
   | .error _ => na
 
 def checkOne (acc : Acc) (kind : String) (ty : Target) (what : String) (claim : Claim) (impl : Json) : Acc :=
